@@ -4,13 +4,13 @@ static rules the compiler imposes (emit depth inside a switch), AST transformati
 the meaning (compound -> expanded assignment, literal -> computed operand) and a shrinker.
 
 AST
-  expr : ('i', n) ('s', text) ('nil',) ('var', sc, id) ('x', a, i) ('neg', e) ('not', e) ('cpl', e)
+  expr : ('i', n) ('s', text) ('f', spelling, shown, nz) ('nil',) ('var', sc, id) ('x', a, i) ('neg', e) ('not', e) ('cpl', e)
          ('b', op, a, b) ('and', a, b) ('or', a, b) ('call', f, [args]) ('size', e) ('carr', [es])
   lval : ('lv', sc, id, [index exprs])
   stmt : ('nop',) ('set', lv, e) ('cset', op, lv, e) ('inc', lv) ('dec', lv) ('if', c, s) ('ife', c, s, s)
          ('while', c, s) ('for', init, c, inc, body) ('do', body, c) ('brk',) ('cont',)
          ('sw', e, [item]) item: ('ci', n) ('cs', text) ('cd',) ('st', stmt)
-         ('blk', [stmt]) ('goto', f) ('try', body, [(f, [param], [stmt])]) ('throw', f, [args])
+         ('blk', [stmt]) ('goto', f[, args]) ('try', body, [(f, [param], [stmt])]) ('throw', f, [args])
          ('pr', [args]) ('th', f, [args]) ('end0',) ('end1', e)
   item : ('lab', f, [param]) ('st', stmt)        param: (sc, id)
   scopes: 'l' local 'g' group 'v' level 'm' game 'p' parm
@@ -52,6 +52,8 @@ def ser_expr(e, o):
         o += ["i", str(e[1])]
     elif k == "s":
         o += ["s", hexs(e[1])]
+    elif k == "f":
+        o += ["f", hexs(e[1]), hexs(e[2]), "1" if e[3] else "0"]
     elif k == "nil":
         o.append("nil")
     elif k == "var":
@@ -118,7 +120,10 @@ def ser_stmt(s, o):
         for c in s[1]:
             ser_stmt(c, o)
     elif k == "goto":
-        o += ["goto", str(s[1])]
+        ga = s[2] if len(s) > 2 else []
+        o += ["goto", str(s[1]), str(len(ga))]
+        for a in ga:
+            ser_expr(a, o)
     elif k == "try":
         o.append("try"); ser_stmt(s[1], o); o.append(str(len(s[2])))
         for f, ps, body in s[2]:
@@ -232,6 +237,8 @@ class Printer:
             return str(e[1])
         if k == "s":
             return self.string(e[1], bare_ok)
+        if k == "f":
+            return e[1]
         if k == "nil":
             return "NIL"
         if k == "var":
@@ -291,7 +298,7 @@ class Printer:
                 return s
             return "(" + s + ")"
         s = self.prim(e)
-        if self.st.parens and self.rng.random() < self.st.parens * 0.2 and k in ("i", "var", "s"):
+        if self.st.parens and self.rng.random() < self.st.parens * 0.2 and k in ("i", "var", "s", "f"):
             return "(" + s + ")"
         return s
 
@@ -325,7 +332,7 @@ class Printer:
         if k == "cont":
             return "continue"
         if k == "goto":
-            return "goto " + label_name(s[1])
+            return " ".join(["goto", label_name(s[1])] + [self.prim(a, True) for a in (s[2] if len(s) > 2 else [])])
         if k == "throw":
             return " ".join(["throw", label_name(s[1])] + [self.prim(a, True) for a in s[2]])
         if k == "pr":
@@ -393,24 +400,25 @@ class Printer:
             lines[-1] = lines[-1] + " while" + self.cond(s[2])
             return lines
         if k == "sw":
-            lines = []
-            for it in s[2]:
-                if it[0] == "ci":
-                    lines.append(ind + "case %s:" % (str(it[1]) if it[1] >= 0 else "-" + str(-it[1])))
-                elif it[0] == "cs":
-                    lines.append(ind + "case %s:" % self.string(it[1], True))
-                elif it[0] == "cd":
-                    lines.append(ind + "default:")
-                else:
-                    lines += self.stmt(it[1], ind + self.st.indent)
-            # a simple statement may share the line of its case label
             merged = []
-            for ln in lines:
-                if merged and merged[-1].rstrip().endswith(":") and not ln.rstrip().endswith(":") and "{" not in ln \
-                        and "}" not in ln and self.rng.random() < 0.3:
-                    merged[-1] = merged[-1] + " " + ln.strip()
+            after_label = False
+            for it in s[2]:
+                if it[0] in ("ci", "cs", "cd"):
+                    if it[0] == "ci":
+                        merged.append(ind + "case %s:" % (str(it[1]) if it[1] >= 0 else "-" + str(-it[1])))
+                    elif it[0] == "cs":
+                        merged.append(ind + "case %s:" % self.string(it[1], True))
+                    else:
+                        merged.append(ind + "default:")
+                    after_label = True
                 else:
-                    merged.append(ln)
+                    new = self.stmt(it[1], ind + self.st.indent)
+                    # a simple statement may share the line of its case label
+                    if after_label and it[1][0] in SIMPLE and len(new) == 1 and self.rng.random() < 0.3:
+                        merged[-1] = merged[-1] + " " + new[0].strip()
+                    else:
+                        merged += new
+                    after_label = False
             if self.st.brace_nl:
                 return [ind + "switch" + self.cond(s[1]), ind + "{"] + merged + [ind + "}"]
             return [ind + "switch" + self.cond(s[1]) + " {"] + merged + [ind + "}"]
@@ -494,7 +502,7 @@ def print_program(p, rng=None, plain=False):
 
 def need_expr(e):
     k = e[0]
-    if k in ("i", "s", "nil", "var"):
+    if k in ("i", "s", "f", "nil", "var"):
         return 1
     if k == "x":
         return 1 + max(need_expr(e[1]), need_expr(e[2]))
@@ -550,7 +558,9 @@ def need_stmt(s, braced=True):
         return 1 + max(need_expr(s[1]), need_block([it[1] for it in s[2] if it[0] == "st"]))
     if k == "blk":
         return need_block(s[1])
-    if k in ("goto", "end0"):
+    if k == "goto":
+        return 1 + max([1] + [need_expr(a) for a in (s[2] if len(s) > 2 else [])])
+    if k == "end0":
         return 2
     if k in ("throw", "th", "pr"):
         return 1 + max([1] + [need_expr(a) for a in s[2 if k != "pr" else 1]])
@@ -624,6 +634,8 @@ def map_stmt(s, fs, fe):
         s = ("try", map_stmt(s[1], fs, fe), [(f, ps, [map_stmt(c, fs, fe) for c in b]) for f, ps, b in s[2]])
     elif k in ("throw", "th"):
         s = (k, s[1], [map_expr(a, fe) for a in s[2]])
+    elif k == "goto" and len(s) > 2:
+        s = ("goto", s[1], [map_expr(a, fe) for a in s[2]])
     elif k == "pr":
         s = ("pr", [map_expr(a, fe) for a in s[1]])
     elif k == "end1":
@@ -707,17 +719,28 @@ def shrink_candidates(p):
             res += [("pr", s[1][:i] + s[1][i + 1:]) for i in range(len(s[1]))]
         return res
 
+    # whole functions first (label up to the next function label), then halves of statement runs,
+    # then single statements and their simplifications
+    for i, it in enumerate(p):
+        if it[0] == "lab" and it[1] != 0 and it[1] < 50:
+            j = i + 1
+            while j < len(p) and not (p[j][0] == "lab" and p[j][1] < 50):
+                j += 1
+            out.append(p[:i] + p[j:])
+    sts = [i for i, it in enumerate(p) if it[0] == "st"]
+    if len(sts) >= 8:
+        for a, b in ((0, len(sts) // 2), (len(sts) // 2, len(sts)), (0, len(sts) // 4), (len(sts) // 4, len(sts) // 2)):
+            drop = set(sts[a:b])
+            out.append([it for i, it in enumerate(p) if i not in drop])
     for i, it in enumerate(p):
         if it[0] == "st":
             out.append(p[:i] + p[i + 1:])
+    for i, it in enumerate(p):
+        if it[0] == "st":
             for v in stmt_variants(it[1]):
                 out.append(p[:i] + [("st", v)] + p[i + 1:])
-        elif it[1] != 0:
-            # drop a whole function (label up to the next label)
-            j = i + 1
-            while j < len(p) and p[j][0] != "lab":
-                j += 1
-            out.append(p[:i] + p[j:])
+        elif it[1] >= 50:
+            out.append(p[:i] + p[i + 1:])
     return out
 
 
@@ -757,6 +780,10 @@ def parse_expr(t):
         return ("i", t.int())
     if k == "s":
         return ("s", unhexs(t.next()))
+    if k == "f":
+        sp = unhexs(t.next())
+        sh = unhexs(t.next())
+        return ("f", sp, sh, t.next() == "1")
     if k == "nil":
         return ("nil",)
     if k == "var":
@@ -845,7 +872,10 @@ def parse_stmt(t):
         n = t.int()
         return ("blk", [parse_stmt(t) for _ in range(n)])
     if k == "goto":
-        return ("goto", t.int())
+        f = t.int()
+        n = t.int()
+        ga = [parse_expr(t) for _ in range(n)]
+        return ("goto", f, ga) if ga else ("goto", f)
     if k == "try":
         b = parse_stmt(t)
         n = t.int()
@@ -893,3 +923,10 @@ def parse_program(text):
         else:
             raise ValueError("item token " + k)
     return p
+
+
+def flt(spelling):
+    """a float literal as the engine shows it: strtof, then "%.3f" of the float widened to double"""
+    import struct
+    x = struct.unpack("f", struct.pack("f", float(spelling)))[0]
+    return ("f", spelling, "%.3f" % x, abs(x) >= 0.00009999999747378752)
